@@ -37,7 +37,7 @@ const (
 	// RENEW/REBIND of an own unexpired binding is not answered with the same value
 	sigV6Renew = "C02/v6/renew-not-same/" // + no-reply | no-binding | other-value
 	// a value that must be available again is not obtained by the drain probe
-	sigV6NotAvail = "C02/v6/not-available-again/" // + released | expired | abandoned-advertise
+	sigV6NotAvail = "C02/v6/not-available-again/" // + released | expired | abandoned-advertise | lost-after-advertise
 	sigV6Panic    = "C02/v6/handler-panic"
 )
 
@@ -374,10 +374,17 @@ type v6val struct {
 	at     time.Time
 	expiry time.Time
 	// readv: while bound, the value was advertised again to its holder (a SOLICIT from a client the monitor still
-	// counts as bound). If the server had already dropped that binding (it releases everything on any RELEASE), the
-	// Advertise is a fresh pool allocation without a lease: what keeps the value out of circulation afterwards is the
-	// abandoned Advertise, not the expiry of the old binding.
+	// counts as bound) AND at that moment the server's lease table had no lease of that client naming the value (it
+	// releases everything on any RELEASE). Then the Advertise is a fresh pool allocation without a lease: what keeps
+	// the value out of circulation afterwards is the abandoned Advertise (KF-C02-14), not the expiry of the old
+	// binding. The lease-table evidence only CLASSIFIES a verdict the replies already gave: a re-Advertise of a
+	// binding the server still holds allocates nothing, so a value that is not available again after that binding's
+	// lifetime reports as .../expired (never listed) - before, any such value was swallowed by the listed signature.
 	readv bool
+	// unnamedDecl: the client this address was advertised to (and never bound to) later sent a DECLINE, answered
+	// Success, that did not name it. Nothing was declined, so the address has to stay in circulation; the server
+	// quarantines whatever its pool holds for the DUID (KF-C02-15). Classification evidence only.
+	unnamedDecl bool
 }
 
 type v6mon struct {
@@ -444,7 +451,9 @@ func (m *v6mon) cancelOffers(duid string, keep map[string]bool) {
 	}
 }
 
-func (m *v6mon) onAdvertise(duid, label string, items []v6item, now time.Time) {
+// leased (may be nil = unknown, treated as "no lease") reports whether the server's lease table holds a lease of this
+// client naming the value; classification evidence for v6val.readv only.
+func (m *v6mon) onAdvertise(duid, label string, items []v6item, now time.Time, leased func(key string) bool) {
 	keep := map[string]bool{}
 	for _, it := range items {
 		if it.bad != "" {
@@ -466,7 +475,7 @@ func (m *v6mon) onAdvertise(duid, label string, items []v6item, now time.Time) {
 		m.offers[duid][it.key] = now.Add(it.valid)
 		st := m.vals[it.key]
 		if st != nil && st.kind == "bound" && !now.After(st.expiry) {
-			if st.owner == duid {
+			if st.owner == duid && (leased == nil || !leased(it.key)) {
 				st.readv = true
 			}
 			continue
@@ -552,6 +561,11 @@ func (m *v6mon) onGiveUp(duid, label string, named []string, decline bool, now t
 				st.kind, st.label = "declined", label
 			} else {
 				st.kind = "cancelled"
+				st.unnamedDecl = st.unnamedDecl || (decline && k[0] == 'A')
+			}
+		case "cancelled":
+			if decline && k[0] == 'A' && !isNamed[k] {
+				st.unnamedDecl = true
 			}
 		}
 	}
@@ -946,7 +960,7 @@ func (x *v6run) step(o v6op) bool {
 	case "solicit":
 		for _, r := range rs {
 			if r.typ == dhcpv6.MsgTypeAdvertise {
-				x.mon.onAdvertise(duid, label, r.items, now)
+				x.mon.onAdvertise(duid, label, r.items, now, x.leasedBy(duid))
 			} else if r.typ == dhcpv6.MsgTypeReply {
 				x.mon.onReply(duid, label, "SOLICIT-rapid", r.items, now)
 			}
@@ -1025,6 +1039,38 @@ func (x *v6run) step(o v6op) bool {
 		}
 	}
 	return x.after()
+}
+
+// leasedBy returns a predicate over value keys: does the server's lease table hold a lease of duid naming the value?
+func (x *v6run) leasedBy(duid string) func(string) bool {
+	keys := map[string]bool{}
+	for _, l := range x.srv.VerifLeases() {
+		if l.Key != duid {
+			continue
+		}
+		if l.Lease.Address != nil {
+			keys["A:"+l.Lease.Address.String()] = true
+		}
+		if l.Lease.Prefix != nil {
+			ones, _ := l.Lease.Prefix.Mask.Size()
+			keys[fmt.Sprintf("P:%s/%d", l.Lease.Prefix.IP, ones)] = true
+		}
+	}
+	return func(k string) bool { return keys[k] }
+}
+
+// heldForAdvertisedClient: classification evidence for KF-C02-14 (never decides whether something is a violation):
+// the server's pool holds value v for the client duid and the lease table has no lease of that client naming it.
+func (x *v6run) heldForAdvertisedClient(v, duid string) bool {
+	p := x.srv.VerifPools()
+	held := false
+	switch v[0] {
+	case 'A':
+		held = "A:"+p.AddrAllocated[duid] == v
+	case 'P':
+		held = "P:"+p.PrefixAllocated[duid] == v
+	}
+	return held && !x.leasedBy(duid)(v)
 }
 
 func (x *v6run) after() bool {
@@ -1125,6 +1171,15 @@ func (x *v6run) demand(now time.Time, second bool) {
 			reason = "abandoned-advertise"
 		case st.kind == "released":
 			reason = "released"
+		}
+		if reason == "abandoned-advertise" && !x.heldForAdvertisedClient(v, st.owner) {
+			// KF-C02-14 is "the Advertise's pool allocation for that client is never given back": the pool must still
+			// hold the value for the client it was advertised to, and that client must have no lease naming it. A
+			// value that is out of circulation in any other way was lost by another cause (never listed).
+			reason = "lost-after-advertise"
+			if st.unnamedDecl {
+				reason = "advertised-then-quarantined-by-decline-not-naming-it"
+			}
 		}
 		if reason == "" {
 			continue
